@@ -1,6 +1,6 @@
 (* Cache coherence of ImportDB.get_default (Sys/DBCache.v). *)
 From Coq Require Import NArith List Bool String Lia.
-From Verif Require Import Base.Chars Base.StrX Base.StrXProofs Sys.DBPath Sys.DBCompose Sys.DBCache Sys.DBComposeProofs.
+From Verif Require Import Base.Chars Base.StrX Base.StrXProofs Sys.DBPath Sys.DBPathProofs Sys.DBCompose Sys.DBCache Sys.DBComposeProofs.
 Import ListNotations.
 
 (* ---------- boolean equalities reflect equality ---------- *)
@@ -136,6 +136,36 @@ Proof.
   exists pre, rest. rewrite A, B, last_last. auto.
 Qed.
 
+(* ---------- target_dirname.real: the real directory is an existing directory and its own real path ---------- *)
+Lemma dir_chain_isdir d : isdir _ t d = true -> dir_chain t d = [d].
+Proof.
+  intros H. unfold dir_chain. destruct (rev d) as [|n r] eqn:E.
+  - apply (f_equal (@rev name)) in E. rewrite rev_involutive in E. subst. reflexivity.
+  - cbn [chain_rev]. rewrite <- E, rev_involutive, H. reflexivity.
+Qed.
+
+Lemma chain_rev_last_dir rd :
+  isdir _ t (last (chain_rev t rd) []) = true \/ last (chain_rev t rd) [] = [].
+Proof.
+  induction rd as [|n r IH]; [right; reflexivity|].
+  cbn [chain_rev]. destruct (isdir _ t (rev (n :: r))) eqn:E.
+  - left. exact E.
+  - rewrite last_cons_nonempty by apply chain_rev_nonempty. exact IH.
+Qed.
+
+Lemma real_dir_fix d :
+  real_dir t (last (dir_chain t (real_dir t (last (dir_chain t d) []))) []) = real_dir t (last (dir_chain t d) []).
+Proof.
+  set (x := last (dir_chain t d) []).
+  destruct (chain_rev_last_dir (rev d)) as [H|H]; fold (dir_chain t d) in H; fold x in H.
+  - destruct (realpath_of_dir _ t x H) as [r [R1 [R2 R3]]].
+    assert (RX : real_dir t x = if safe_path r then r else x) by (unfold real_dir; rewrite R1; reflexivity).
+    rewrite RX. destruct (safe_path r) eqn:S.
+    + rewrite (dir_chain_isdir r R2). simpl last. unfold real_dir. rewrite R3, S. reflexivity.
+    + rewrite (dir_chain_isdir x H). simpl last. rewrite RX; try rewrite S; reflexivity.
+  - rewrite H. reflexivity.
+Qed.
+
 (* ---------- what a key stands for: a load that does not consult the cache ---------- *)
 Definition load_result (files : list path) : err + db :=
   match load_files t files with
@@ -145,9 +175,10 @@ Definition load_result (files : list path) : err + db :=
 
 Definition load_dir (cwd : path) (home : str) (e : env3) (d : path) : err + db :=
   match get_python_path _ t cwd home (pyflyby_path e) (default_pyflyby_path etc)
-                        (last (dir_chain t d) []) with
+                        (real_dir t (last (dir_chain t d) [])) with
   | PPValueError p => inl (EValue p)
   | PPUnsafe => inl EUnsafe
+  | PPFuel => inl EFuel
   | PPOk files => load_result files
   end.
 
@@ -172,19 +203,23 @@ Lemma load_dir_chain cwd home e d x :
   In x (dir_chain t d) -> load_dir cwd home e x = load_dir cwd home e d.
 Proof. intros H. unfold load_dir. rewrite (dir_chain_last d x H). reflexivity. Qed.
 
+Lemma load_dir_real cwd home e d :
+  load_dir cwd home e (real_dir t (last (dir_chain t d) [])) = load_dir cwd home e d.
+Proof. unfold load_dir. rewrite real_dir_fix. reflexivity. Qed.
+
 (* a fresh load, spelled out *)
 Lemma fresh_unfold ver q :
   fresh t etc ver q =
   match initial_dir t q with
-  | None => inl ENoSafe
-  | Some d0 => load_dir (q_cwd q) (q_home q) (q_env q) d0
+  | inl e => inl e
+  | inr d0 => load_dir (q_cwd q) (q_home q) (q_env q) d0
   end.
 Proof.
-  unfold fresh, get_default. destruct (initial_dir t q) as [d0|]; [|reflexivity].
+  unfold fresh, get_default. destruct (initial_dir t q) as [e|d0]; [reflexivity|].
   assert (F : forall ks, first_hit [] ks = None) by (induction ks; simpl; auto).
   rewrite F. simpl cache_get. unfold load_dir, load_result.
   destruct (get_python_path _ t (q_cwd q) (q_home q) (pyflyby_path (q_env q))
-                            (default_pyflyby_path etc) (last (dir_chain t d0) [])); try reflexivity.
+                            (default_pyflyby_path etc) (real_dir t (last (dir_chain t d0) []))); try reflexivity.
   simpl cache_get. destruct (load_files t files); reflexivity.
 Qed.
 
@@ -206,21 +241,21 @@ Lemma get_default_step ver amb c q :
   Inv amb (fst (get_default t etc ver c q)).
 Proof.
   intros Hamb HI. rewrite fresh_unfold. unfold get_default.
-  destruct (initial_dir t q) as [d0|]; [|simpl; auto].
+  destruct (initial_dir t q) as [e0|d0]; [simpl; auto|].
   destruct (first_hit c (map (k1 ver q) (dir_chain t d0))) as [v|] eqn:FH.
   { (* hit on one of the incremental keys *)
     simpl. split; auto.
     apply first_hit_some in FH as [k [I G]]. apply in_map_iff in I as [x [Ex Ix]]. subst k.
     apply HI in G. rewrite (k1_meaning ver amb q x Hamb) in G. injection G as G'.
     rewrite (load_dir_chain _ _ _ d0 x Ix) in G'. rewrite G'. reflexivity. }
-  destruct (cache_get c (k1 ver q (last (dir_chain t d0) []))) as [v|] eqn:G2.
+  destruct (cache_get c (k1 ver q (real_dir t (last (dir_chain t d0) [])))) as [v|] eqn:G2.
   { simpl. split; auto.
     apply HI in G2. rewrite (k1_meaning ver amb q _ Hamb) in G2. injection G2 as G'.
-    rewrite (load_dir_chain _ _ _ d0 _ (dir_chain_last_in d0)) in G'. rewrite G'. reflexivity. }
+    rewrite load_dir_real in G'. rewrite G'. reflexivity. }
   unfold load_dir at 1.
   destruct (get_python_path _ t (q_cwd q) (q_home q) (pyflyby_path (q_env q))
-                            (default_pyflyby_path etc) (last (dir_chain t d0) [])) as [files|p|] eqn:PP;
-    [|simpl; split; auto|simpl; split; auto].
+                            (default_pyflyby_path etc) (real_dir t (last (dir_chain t d0) []))) as [files|p| |] eqn:PP;
+    [|simpl; split; auto|simpl; split; auto|simpl; split; auto].
   destruct (cache_get c (K2 files)) as [v|] eqn:G3.
   { simpl. split; auto. apply HI in G3. simpl in G3. injection G3 as G'. rewrite G'. reflexivity. }
   unfold load_result. destruct (load_files t files) as [e|v] eqn:LF; simpl; split; auto.
@@ -235,7 +270,7 @@ Proof.
       rewrite (k1_meaning ver amb q x Hamb). rewrite (load_dir_chain _ _ _ d0 x Ix). rewrite LD. reflexivity.
     + destruct I as [I|[]]. subst k'.
       rewrite (k1_meaning ver amb q _ Hamb).
-      rewrite (load_dir_chain _ _ _ d0 _ (dir_chain_last_in d0)). rewrite LD. reflexivity.
+      rewrite load_dir_real. rewrite LD. reflexivity.
   - destruct I as [I|[]]. subst k'. simpl. unfold load_result. rewrite LF. reflexivity.
 Qed.
 
@@ -245,16 +280,16 @@ Qed.
 Theorem db_in_effect ver q v :
   fresh t etc ver q = inr v ->
   exists d0 files fs,
-    initial_dir t q = Some d0 /\
+    initial_dir t q = inr d0 /\
     get_python_path _ t (q_cwd q) (q_home q) (pyflyby_path (q_env q)) (default_pyflyby_path etc)
-                    (last (dir_chain t d0) []) = PPOk files /\
+                    (real_dir t (last (dir_chain t d0) [])) = PPOk files /\
     all_parsed (map (content_of t) files) = inr fs /\
     v = compose fs.
 Proof.
-  rewrite fresh_unfold. destruct (initial_dir t q) as [d0|]; [|discriminate].
+  rewrite fresh_unfold. destruct (initial_dir t q) as [e0|d0]; [discriminate|].
   unfold load_dir.
   destruct (get_python_path _ t (q_cwd q) (q_home q) (pyflyby_path (q_env q))
-                            (default_pyflyby_path etc) (last (dir_chain t d0) [])) as [files|p|] eqn:PP;
+                            (default_pyflyby_path etc) (real_dir t (last (dir_chain t d0) []))) as [files|p| |] eqn:PP;
     try discriminate.
   unfold load_result, load_files, from_code.
   destruct (all_parsed (map (content_of t) files)) as [e|fs] eqn:AP; [discriminate|].
@@ -264,9 +299,9 @@ Qed.
 Corollary db_in_effect_known ver q v :
   fresh t etc ver q = inr v ->
   exists d0 files fs,
-    initial_dir t q = Some d0 /\
+    initial_dir t q = inr d0 /\
     get_python_path _ t (q_cwd q) (q_home q) (pyflyby_path (q_env q)) (default_pyflyby_path etc)
-                    (last (dir_chain t d0) []) = PPOk files /\
+                    (real_dir t (last (dir_chain t d0) [])) = PPOk files /\
     all_parsed (map (content_of t) files) = inr fs /\
     (forall i, In i (known v) <-> In_union f_known fs i /\ ~ Forgotten (In_union f_forget fs) i) /\
     (forall i, In i (mandatory v) <-> In_union f_mand fs i /\ ~ Forgotten (In_union f_forget fs) i) /\
